@@ -13,7 +13,7 @@ schema:  `S h<name> <hasNT> <h<nodetype>|-> <n> (h<propname> <kind>)*n`     (cla
         | `raw <h<sub>|-> <ext|any|anyList> <opt>`
          `T <reg> h<qname> <cls>`
 codec:   `cx h<conv> h<py> h<lex>` | `cp h<conv> h<lex> <h<py>|!>` | `now h<py>`
-ops:     `w <cls> h<tag> <val>` -> `ok <xml>` | `err`        `r <cls> <xml>` -> `ok <val>` | `err`
+ops:     `w <cls> <tag> <val>` -> `ok <xml>` | `err`     `r <cls> <xml>` -> `ok <val>` | `err`     `t <cls> <val>` -> `wt` | `nwt`
    val = `n` | `a h<py>` | `l <n> <val>*n` | `o <cls> <n> <val>*n` | `r <n> <xml>*n`
    xml = `x h<tag> <na> (h<name> h<value>)*na h<text> <nk> <xml>*nk`        (attributes sorted by name in the answer) -/
 
@@ -176,6 +176,90 @@ def pPropEs (f : Nat) : Nat → Toks → Option (List PropE × Toks)
     pure (⟨nm, k⟩ :: ps, r)
   | _ + 1, [] => none
 
+/-! executable mirror of `WT` (evidence only: how many generated values lie in the domain of the theorems) -/
+mutual
+def xmlBeq : Xml → Xml → Bool
+  | .node t a ks tx, .node t' a' ks' tx' => t == t' && a == a' && tx == tx' && xmlsBeq ks ks'
+def xmlsBeq : List Xml → List Xml → Bool
+  | [], [] => true
+  | x :: xs, y :: ys => xmlBeq x y && xmlsBeq xs ys
+  | _, _ => false
+end
+
+mutual
+def valBeq : Val → Val → Bool
+  | .none, .none => true
+  | .atom a, .atom b => a == b
+  | .list a, .list b => valsBeq a b
+  | .obj c a, .obj d b => c == d && valsBeq a b
+  | .raw a, .raw b => xmlsBeq a b
+  | _, _ => false
+def valsBeq : List Val → List Val → Bool
+  | [], [] => true
+  | x :: xs, y :: ys => valBeq x y && valsBeq xs ys
+  | _, _ => false
+end
+
+def rtB (C : Codec) (conv s : String) : Bool :=
+  match C.toXml conv s with
+  | some l => C.toPy conv l == some s
+  | none => false
+
+def atomsB (C : Codec) (conv : String) (joined : Bool) (vs : List Val) : Bool :=
+  match atoms vs with
+  | some ss => match mapM' (C.toXml conv) ss with
+    | some ls => mapM' (C.toPy conv) ls == some ss && (!joined || C.split (C.join ls) == ls)
+    | none => false
+  | none => false
+
+def nestedB (S : Schema) (container : Bool) (dispatch decl c : Nat) : Bool :=
+  match xsiFor S container decl c with
+  | some none => c == decl
+  | some (some q) => dispatch != 0 && S.lookupType dispatch q == some c
+  | none => false
+
+def wtKB (C : Codec) (S : Schema) (P : Nat → List Val → Bool) : Kind → Val → Bool
+  | .attr _ conv opt vol, v =>
+    (!vol || valBeq v (.atom C.now)) && (match v with
+      | .none => opt && !vol
+      | .atom s => rtB C conv s
+      | _ => false)
+  | .attrList _ conv _, .list vs => atomsB C conv true vs
+  | .text sub conv opt _ style dflt, v => (match v with
+      | .none => sub.isSome && opt && !(style == .enumQName && dflt.isSome)
+      | .atom s => match C.toXml conv s with
+        | some l => C.toPy conv l == some s && (style != .qname || l != "")
+        | none => false
+      | _ => false)
+  | .textList _ conv _, .list vs => atomsB C conv true vs
+  | .subTextList _ conv, .list vs => atomsB C conv false vs
+  | .sub name decl opt container skipEmpty dispatch dflt, v =>
+    name.isSome && (match v with
+      | .none => (opt || skipEmpty) && dflt.isNone
+      | .obj c fs =>
+        if skipEmpty && v.isEmptyObj then (match dflt with | some d => valBeq d v | none => false)
+        else P c fs && nestedB S container dispatch decl c
+      | _ => false)
+  | .subList _ decl container dispatch, .list vs => vs.all fun w => match w with
+      | .obj c fs => P c fs && nestedB S container dispatch decl c
+      | _ => false
+  | .raw sub style opt, v => (match style, v with
+      | .ext, .raw _ => true
+      | .any, .none => opt && sub.isSome
+      | .any, .raw _ => true
+      | .anyList, .raw _ => true
+      | _, _ => false)
+  | _, _ => false
+
+def wtPropsB (C : Codec) (S : Schema) (P : Nat → List Val → Bool) : List PropE → List Val → Bool
+  | [], [] => true
+  | p :: ps, v :: vs => wtKB C S P p.kind v && wtPropsB C S P ps vs
+  | _, _ => false
+
+def wtB (C : Codec) (S : Schema) : Nat → Nat → List Val → Bool
+  | 0 => fun _ _ => false
+  | f + 1 => fun c fs => S.okCls c && wtPropsB C S (wtB C S f) (S.props c) fs
+
 structure DSt where
   S : Schema := ⟨[], []⟩
   cx : List ((String × String) × String) := []        -- (conv, py) -> lexical
@@ -230,6 +314,9 @@ def stepLine (st : DSt) (line : String) : DSt × String :=
         | none => (st, "err")
       else (st, "bad-op")
     | _, _, _ => (st, "bad-op")
+  | "t" :: c :: r => match c.toNat?, pVal f r with
+    | some c, some (.obj c' fs, []) => if c' = c then (st, if wtB st.codec st.S f c fs then "wt" else "nwt") else (st, "bad-op")
+    | _, _ => (st, "bad-op")
   | "r" :: c :: r => match c.toNat?, pXml f r with
     | some c, some (x, []) => match readCls st.codec st.S f c x with
       | some v => (st, "ok " ++ dVal v)
